@@ -82,10 +82,13 @@ def sym_expr_harness(name, abi, m):
         cands = [set(), {ATTR.PLT}, {ATTR.GOT, ATTR.PCREL}, {ATTR.LO12}, {ATTR.LO12, ATTR.GOT}, {ATTR.GOT}, {ATTR.PCREL}]
         attrs = cands[ctx.choose(len(cands), "attributes")]
         access = list(AT)[ctx.choose(len(AT), "access-type")]
-        old_def = bool(ctx.choose(2, "old-defined"))
-        new_def = bool(ctx.choose(2, "new-defined"))
-        old = gtirb.Symbol("old", payload=blk if old_def else proxy, module=m)
-        new = gtirb.Symbol("new", payload=blk if new_def else add_proxy_block(m), module=m)
+        # a symbol is internal ("defined") when it designates a block of the module -- code OR data -- and external when it designates a proxy
+        dblk = add_data_block(bi, b"\x00" * 8)
+        old_kind = ["code", "data", "proxy"][ctx.choose(3, "old-referent")]
+        new_kind = ["code", "data", "proxy"][ctx.choose(3, "new-referent")]
+        old_def, new_def = old_kind != "proxy", new_kind != "proxy"
+        old = gtirb.Symbol("old", payload={"code": blk, "data": dblk, "proxy": proxy}[old_kind], module=m)
+        new = gtirb.Symbol("new", payload={"code": blk, "data": dblk, "proxy": add_proxy_block(m)}[new_kind], module=m)
         addend = ctx.int("addend")
         expr = gtirb.SymAddrConst(SymInt(addend), old, set(attrs))
         matching = [r for r in rules if access in r.access_types and attrs == r.get_relevant_attrs(old_def)]
